@@ -47,6 +47,9 @@ var c17Programs = []string{
 	"replace all any with 'r' value",
 	"replace all any = x with x x",
 	"find all 'zzzzz'",
+	"replace all any with ''",
+	"replace all any (maybe 'z') = gone with gone",
+	"replace all 'a' with '' value",
 	"find all any find all any any",
 	"find all at least 1 (at least 1 (any = c) fewest named i) named o",
 }
